@@ -5,6 +5,7 @@ package main
 import (
 	"fmt"
 	"net/netip"
+	"strings"
 
 	"github.com/semihalev/sdns/internal/verif/vlib"
 )
@@ -170,7 +171,8 @@ func (g gid) tok() string {
 	return fmt.Sprintf("%s,%d,%d,%s,%s", nameTok(g.ls), g.qtype, g.class, vlib.B(g.cd), fmtScope(g.scope))
 }
 
-var qtypes = []int{1, 28, 16}
+// A, AAAA, TXT, DS, DNSKEY (the resolver-internal lookups), MX
+var qtypes = []int{1, 28, 16, 43, 48, 15}
 
 func genGid(r *vlib.R) gid {
 	g := gid{ls: genLabels(r), qtype: vlib.Pick(r, qtypes), class: 1, cd: r.Chance(1, 3)}
@@ -377,7 +379,8 @@ func genVerOps(r *vlib.R, emit func(string)) int {
 		emit(fmt.Sprintf("ver wname %s %s", nameTok(sh.ls), presTok(mp.pres)))
 		emit(fmt.Sprintf("ver fold %s %s", presTok(gp.pres), presTok(mp.pres)))
 		emit(fmt.Sprintf("ver wfold %s %s", nameTok(sh.ls), nameTok(m2.ls)))
-		n += 3
+		emit(fmt.Sprintf("ver walk %s", presTok(mp.pres)))
+		n += 4
 	}
 	// Unicode look-alikes must NOT fold: Kelvin sign / long s / dotless i vs ASCII
 	for _, pr := range [][2]string{{"k.example.", "\xe2\x84\xaa.example."}, {"s.example.", "\xc5\xbf.example."},
@@ -483,7 +486,7 @@ func (p *pipeGen) getAll(g gid, scope netip.Prefix) {
 		if route == "wire" && !scope.IsValid() && !p.r.Chance(1, 4) {
 			c = netip.Prefix{}
 		}
-		p.op("pipe get %s %s %s", route, q, fmtScope(c))
+		p.op("pipe get %s %s %s%s", route, q, fmtScope(c), vlib.Pick(p.r, []string{"", "", "", " tcp", " do", " tcp+do"}))
 	}
 	if scope.IsValid() {
 		// meet the probe exactly: clients whose masked prefix IS the scope
@@ -596,7 +599,8 @@ func (p *pipeGen) chaseCase() {
 			names[i] = [][]byte{{'r', byte('0' + i%10)}}
 		}
 	}
-	g := func(i int) gid { return gid{ls: names[i], qtype: qtype, class: 1, cd: cd} }
+	class := vlib.Pick(r, []int{1, 1, 1, 3, 4})
+	g := func(i int) gid { return gid{ls: names[i], qtype: qtype, class: class, cd: cd} }
 	broken := -1
 	if r.Chance(1, 2) {
 		broken = 1 + r.Intn(hops)
@@ -624,6 +628,22 @@ func (p *pipeGen) chaseCase() {
 			p.op("pipe set own %s %d -", g(hops).tok(), p.nextID())
 		}
 	}
+	// decoys: a hop's name answered in ANOTHER class / CD partition / type, honestly stored
+	for k := 0; k < r.Intn(3); k++ {
+		d, _ := mutate(r, g(1+r.Intn(hops)), []string{"class", "cd", "class", "type"})
+		p.op("pipe set own %s %d -", d.tok(), p.nextID())
+	}
+	// the chain may end below a denied name or at a failed question
+	switch r.Intn(8) {
+	case 0:
+		p.op("pipe cset %s,0,%d %d -", nameTok(names[hops]), vlib.Pick(r, []int{class, class, 1}), p.nextID())
+	case 1:
+		f := g(hops)
+		if r.Chance(1, 3) {
+			f, _ = mutate(r, f, []string{"class", "cd"})
+		}
+		p.op("pipe fset own q %s %d", f.tok(), p.nextID())
+	}
 	for i := 0; i <= hops && i < 3; i++ {
 		c := g(i)
 		if r.Bool() {
@@ -631,11 +651,14 @@ func (p *pipeGen) chaseCase() {
 		}
 		q := fmt.Sprintf("%s,%d,%d,%s", nameTok(c.ls), c.qtype, c.class, vlib.B(c.cd))
 		p.op("pipe get wire %s -", q)
-		p.op("pipe get msg %s -", q)
+		p.op("pipe get msg %s %s", q, fmtScope(clientFor(r, netip.Prefix{})))
 	}
 	other := g(0)
 	other.cd = !cd
-	p.op("pipe get wire %s,%d,1,%s -", nameTok(other.ls), qtype, vlib.B(other.cd))
+	p.op("pipe get wire %s,%d,%d,%s -", nameTok(other.ls), qtype, class, vlib.B(other.cd))
+	oc := g(0)
+	oc.class = vlib.Pick(r, []int{1, 3, 4})
+	p.op("pipe get msg %s,%d,%d,%s -", nameTok(oc.ls), qtype, oc.class, vlib.B(cd))
 }
 
 // composite: RFC 8020 cuts and RFC 9520 failures, honest and under forged hashes.
@@ -882,7 +905,7 @@ func (p *pipeGen) prefetchCase() {
 	twin.cd = !g.cd
 	idg, idt := p.nextID(), p.nextID()
 	alias := "-"
-	if r.Chance(1, 6) && g.qtype != 16 {
+	if r.Chance(1, 6) && (g.qtype == 1 || g.qtype == 28) {
 		alias = nameTok(genLabels(r))
 		if alias == "w:00" {
 			alias = "-"
@@ -968,7 +991,31 @@ func (p *pipeGen) admitCase() {
 		sbTok = "-"
 	}
 	route := func() string { return vlib.Pick(r, []string{"msg", "wire"}) }
-	p.op("pipe ask %s %s %s %d %s", route(), q(g), fmtScope(a), p.nextID(), sbTok)
+	// what the authority puts into its ECS option: normally the subnet it was sent; sometimes another
+	// subnet of the family, rarely one of the other family (RFC 7871 §7.3 says drop; the cache keys on it)
+	echo := a
+	if sb >= 0 {
+		switch r.Intn(10) {
+		case 0, 1:
+			echo = flipBit(a, r.Intn(max(min(src, full), 1)))
+			sbTok = fmt.Sprintf("%d@%s", sb, strings.TrimSuffix(fmtScope(withBits(echo, 0)), "/0"))
+		case 2:
+			m, _ := mutate(r, gid{scope: a}, []string{"scope-family"})
+			echo = m.scope
+			sbTok = fmt.Sprintf("%d@%s", min(sb, echo.Addr().BitLen()), strings.TrimSuffix(fmtScope(withBits(echo, 0)), "/0"))
+		}
+	}
+	flip := ""
+	if r.Chance(1, 12) {
+		flip = " flipcd"
+	}
+	p.op("pipe ask %s %s %s %d %s%s", route(), q(g), fmtScope(a), p.nextID(), sbTok, flip)
+	if echo != a {
+		// clients around the subnet the authority named
+		for _, c := range []netip.Prefix{withBits(echo, echo.Addr().BitLen()), withBits(flipBit(echo, r.Intn(echo.Addr().BitLen())), echo.Addr().BitLen()), netip.Prefix{}} {
+			p.op("pipe get %s %s %s", route(), q(g), fmtScope(c))
+		}
+	}
 	// the audience the answer may have: the asking client's network of min(SCOPE, SOURCE, floor) bits
 	allowed := min(max(sb, 0), src, floor)
 	others := []netip.Prefix{a, withBits(a, full)}
